@@ -133,11 +133,14 @@ theorem followsExact_intronFollow (δ : Int) (hδ : 0 ≤ δ) (K E blocks : List
 /-! ### the split-exon half -/
 
 theorem oalwo_iff (a b : Iv) (d : Int) : overlaps_at_least_when_overlap a b d = true ↔
-    (if a.2 < b.2 then (a.1 ≥ b.1 ∨ a.2 - b.1 + 1 ≥ d) else (a.1 ≤ b.1 ∨ b.2 - a.1 + 1 ≥ d)) := by
+    ((b.1 ≤ a.1 ∧ a.2 ≤ b.2) ∨
+     (if a.2 < b.2 then (a.1 ≥ b.1 ∨ a.2 - b.1 + 1 ≥ d) else (a.1 ≤ b.1 ∨ b.2 - a.1 + 1 ≥ d))) := by
   simp only [overlaps_at_least_when_overlap]
-  by_cases h : a.2 < b.2
-  · simp [h]
-  · simp [h]
+  by_cases hc : b.1 ≤ a.1 ∧ a.2 ≤ b.2
+  · simp [hc]
+  · by_cases h : a.2 < b.2
+    · simp [hc, h]
+    · simp [hc, h]
 
 /-- the comparator of the split-exon profile (`overlaps_at_least_when_overlap`) holds for a block inside an annotated
     exon and one of the atoms it overlaps, as soon as the block starts at the exon start, or is at least
